@@ -22,6 +22,11 @@ impl Binder {
         }
         let scan = self.bind_table_def(name, alias.clone(), true)?;
         let cond = self.bind_where(delete.selection)?;
+        // A scalar subquery would have to be planned as an apply on top of the scan, which puts
+        // its column behind the row handler the executor expects in the last position.
+        if self.contains_scalar_subquery(cond) {
+            return Err(ErrorKind::Todo("scalar subquery in DELETE".into()).into());
+        }
         let filter = self.egraph.add(Node::Filter([cond, scan]));
         Ok(self.egraph.add(Node::Delete([table_id, filter])))
     }
